@@ -1003,6 +1003,10 @@ func (m *Monitor) relayWrite(relayKey, to string, payload []byte, now int64) {
 			} else if why == "no-perm" && len(a.Perms[dst.IP.String()]) > 0 {
 				props = append(props, "C07")
 				why = "permission-expired"
+			} else if others := m.M.ChanAddrsPossibly(a, s.Chan, s.TRecv, now); why == "no-binding" && len(others) > 0 {
+				// the number is bound - to somebody else: one number, two peers
+				props = append(props, "C08")
+				why = "bound-to-other-peer"
 			} else if why == "no-binding" {
 				had := false
 				for _, c := range a.Chans {
